@@ -26,7 +26,7 @@ Definition relev (e : event) : bool :=
   end.
 Definition rel (f : fld) : bool :=
   match f with
-  | FCalled | FCausal | FWm | FFb | FFb1 | FPwRep | FPwErr | FMinc | FRbTold | FHb | FPlPrim | FPlAny => false
+  | FCalled | FCausal | FWm | FFb | FFb1 | FPwRep | FPwErr | FMinc | FRbTold | FHb | FPlPrim | FPlAny | FStFb => false
   | _ => true
   end.
 
@@ -115,6 +115,8 @@ Section Frame.
     - apply ag_pwdlv. apply (g_pwok _ _ G). rewrite <- ag_pwok. auto.
     - apply (g_told_dead _ _ G); auto.
     - apply (g_1pcts _ _ G); auto.
+    - eapply g_async_cts; eauto. apply ag_dlv; eauto.
+    - eapply g_jasync; eauto. apply (a_rs _ _ _ A); eauto.
   Qed.
 
   Lemma frame_tinv : tinv s T -> tinv s' T.
